@@ -305,6 +305,10 @@ macro_rules! run_service {
         for msg in &msgs {
             for outcome in &outcomes {
                 for fault in faults {
+                  for prerouted in [false, true] {
+                    if prerouted && fault != Fault::None {
+                        continue;
+                    }
                     if fault == Fault::HandlerRawGarbage && !$raw {
                         continue;
                     }
@@ -318,12 +322,19 @@ macro_rules! run_service {
                     let tamper = Tamper { inner: router, fault, routes: routes.clone() };
                     let mut client = <$client>::new(tamper);
                     let m2 = msg.clone();
+                    // the message is handed over bare, or wrapped in a Request that already carries
+                    // headers and a route of its own (e.g. a relayed inbound request)
                     let r = std::panic::catch_unwind(std::panic::AssertUnwindSafe(|| {
-                        client.$m(m2).now_or_never().expect("in-process call completes synchronously")
+                        if prerouted {
+                            client.$m(anemo::Request::new(m2).with_route("/front/submit").with_header("x-relay", "1")).now_or_never().expect("in-process call completes synchronously")
+                        } else {
+                            client.$m(m2).now_or_never().expect("in-process call completes synchronously")
+                        }
                     }))
                     .map_err(|p| p.downcast_ref::<String>().cloned().or_else(|| p.downcast_ref::<&str>().map(|s| s.to_string())).unwrap_or_default());
                     let rs = routes.lock().unwrap().clone();
                     judge($out, &Case { svc: $svc, method: stringify!($m), raw: $raw }, msg, outcome, fault, &h, &rs, r);
+                  }
                 }
             }
         }
